@@ -177,7 +177,7 @@ func newWorld(c *rig.Ctx, src, lyc uint8) *world {
 var onValue uint8 = 0x91
 
 func run(c *rig.Ctx) {
-	c.Require("cycles", "vblank_expected", "stat_expected_hblank", "stat_expected_vblank", "stat_expected_oam", "stat_expected_lyc", "runs_source_none", "switch_offs", "neutral_register_writes")
+	c.Require("cycles", "vblank_expected", "stat_expected_hblank", "stat_expected_vblank", "stat_expected_oam", "stat_expected_lyc", "runs_source_none", "switch_offs", "neutral_register_writes", "source_changes")
 	srcs := []uint8{srcNone, srcHBlank, srcVBlank, srcOAM, srcLYC}
 	var lycs []uint8
 	for v := 0; v < 154; v++ {
@@ -204,6 +204,22 @@ func run(c *rig.Ctx) {
 	})
 	c.MarkExhaustive("each single STAT source (and none) x LYC 0..153, 154, 200, 255 x 3 frames from switch-on")
 
+	// (1b) long runs: VBlank once per frame and the STAT edges whatever the number of frames
+	c.Part("long", 5, func(i int64, r *rig.Rng) {
+		w := newWorld(c, srcs[i%int64(len(srcs))], uint8(r.Intn(154)))
+		frames := c.N(300, 3000)
+		if i == 2 {
+			frames = c.N(300, 66000)
+		}
+		for k := int64(0); k < frames*lcdref.FrameLen; k++ {
+			if !w.tick() {
+				return
+			}
+		}
+		c.Count("long_run_frames", frames)
+		c.Exact(1)
+	})
+
 	// (2) on/off schedules
 	ns := c.N(150, 4000)
 	c.Part("schedules", ns, func(i int64, r *rig.Rng) {
@@ -229,6 +245,17 @@ func run(c *rig.Ctx) {
 				}
 				w.lcdc(v)
 				next = w.t + 1 + int64(r.PickInt([]int{1, 3, 113, 114, 115, 2000, 17556, 30000}))*int64(1+r.Intn(2))/2
+			}
+			// another single source is selected in mid-run: from then on the requests follow the
+			// new source's rising edges (what the store itself raises, if the new condition
+			// already holds, is not judged)
+			if i%4 == 3 && r.Chance(1, 2500) {
+				ns := srcs[r.Intn(len(srcs))]
+				w.m.Mem.Write(0xff41, ns)
+				w.m.Mem.Write(0xff0f, w.m.Mem.Read(0xff0f)&^0x02)
+				w.src = ns
+				w.log(fmt.Sprintf("STAT<-%02X", ns))
+				c.Count("source_changes", 1)
 			}
 			// stores that change nothing the conditions depend on: the same constant LYC again,
 			// anything to the read-only LY, scroll/window/palette registers
